@@ -75,6 +75,8 @@ class ModuleInfo:
         self.classes = {}
         self.consts = {}     # module-level simple assignments name -> ast expr
         self.imports = {}    # local name -> dotted target
+        self.alt_imports = {}
+        self.alt_consts = {}
 
     def seg(self, node):
         return ast.get_source_segment(self.src, node) or ""
@@ -92,6 +94,12 @@ class Program:
                     src = f.read()
                 name = PKG + "." + fn[:-3] if fn != "__init__.py" else PKG
                 self.modules[name] = self._load(name, path, src)
+        for m in self.modules.values():
+            for nm, tgt in list(m.imports.items()):
+                if tgt.startswith(PKG + ".") and nm in m.alt_imports:
+                    head = ".".join(tgt.split(".")[:2])
+                    if head not in self.modules and tgt not in self.modules:
+                        m.imports[nm] = m.alt_imports[nm]
         self.classes = {}
         for m in self.modules.values():
             for c in m.classes.values():
@@ -142,6 +150,18 @@ class Program:
         elif isinstance(node, ast.Try):
             for b in node.body:
                 self._top(m, b)
+            # `try: from . import x as y / except ImportError: from . import z as y`:
+            # remember the fallback; it is used when the first target does not exist in the package
+            for h in node.handlers:
+                for b in h.body:
+                    if isinstance(b, ast.ImportFrom):
+                        for a in b.names:
+                            mod = b.module or ""
+                            if b.level:
+                                mod = PKG + ("." + mod if mod else "")
+                            m.alt_imports[a.asname or a.name] = (mod + "." + a.name) if mod else a.name
+                    elif isinstance(b, ast.Assign) and len(b.targets) == 1 and isinstance(b.targets[0], ast.Name):
+                        m.alt_consts[b.targets[0].id] = b.value
 
     # ------------------------------------------------------------------
     def func(self, qualname):
